@@ -103,6 +103,20 @@ def parseDec64 (s : Str) : Option Int :=
     | some n => if n < 2 ^ 63 then some (n : Int) else none
     | none => none
 
+/-- the VALUE strconv.ParseInt(s, 10, 64) returns (used where the error is ignored): 0 on a syntax error,
+the clamped bound on a range error -/
+def parseDecVal (s : Str) : Int :=
+  match s with
+  | '-' :: r => match parseNat 10 r with
+    | some n => if n > 2 ^ 63 then -(2 ^ 63 : Int) else -(n : Int)
+    | none => 0
+  | '+' :: r => match parseNat 10 r with
+    | some n => if n ≥ 2 ^ 63 then (2 ^ 63 : Int) - 1 else (n : Int)
+    | none => 0
+  | _ => match parseNat 10 s with
+    | some n => if n ≥ 2 ^ 63 then (2 ^ 63 : Int) - 1 else (n : Int)
+    | none => 0
+
 /-! ### trees -/
 
 /-- `Mode()` (0 = unset) and `ModTime()` (`none` = the zero time, else Unix seconds and nanoseconds) -/
@@ -113,7 +127,8 @@ deriving DecidableEq, Repr
 
 mutual
 inductive Node where
-  | file (m : Meta) (content : Str)
+  /-- a regular file: stat, `AbsPath()` ("" when unknown) and content -/
+  | file (m : Meta) (abspath : Str) (content : Str)
   /-- `files.Symlink`: its mode is the constant ModeSymlink|ModePerm, only the time is stored -/
   | link (mtime : Option (Int × Nat)) (target : Str)
   | dir (m : Meta) (kids : Kids)
@@ -136,6 +151,10 @@ structure Part where
   filename : Str
   ctype : CType
   body : Str
+  /-- value of the `abspath-encoded` header ("" = absent or empty) -/
+  absEnc : Str := []
+  /-- value of the legacy raw `abspath` header -/
+  absRaw : Str := []
 deriving DecidableEq, Repr
 
 /-! ### writer -/
@@ -169,22 +188,24 @@ def formNameOf (mode : Nat) (mtime : Option (Int × Nat)) : Str :=
   "file".toList ++ (if ps = [] then [] else '?' :: encodeParams ps)
 
 def mkPart (form : Bool) (stack : List Str) (name : Str) (mode : Nat) (mtime : Option (Int × Nat))
-    (ct : CType) (body : Str) : Part :=
+    (ct : CType) (body : Str) (abspath : Str := []) : Part :=
   { form := form
     formName := if form then formNameOf mode mtime else []
     filename := escape (pathJoin [pathJoin stack, name])
     ctype := ct
-    body := body }
+    body := body
+    -- `header.Set("abspath-encoded", url.QueryEscape(rf.AbsPath()))` for nodes implementing FileInfo (files)
+    absEnc := escape abspath }
 
 /-- the part announcing one entry -/
 def headPart (form : Bool) (stack : List Str) (name : Str) : Node → Part
-  | .file m c => mkPart form stack name m.mode m.mtime .file c
+  | .file m a c => mkPart form stack name m.mode m.mtime .file c a
   | .link mt t => mkPart form stack name symlinkMode mt .symlink t
   | .dir m _ => mkPart form stack name m.mode m.mtime .dir []
 
 mutual
 def serNode (form : Bool) (stack : List Str) (name : Str) : Node → List Part
-  | .file m c => [mkPart form stack name m.mode m.mtime .file c]
+  | .file m a c => [mkPart form stack name m.mode m.mtime .file c a]
   | .link mt t => [mkPart form stack name symlinkMode mt .symlink t]
   | .dir m kids => mkPart form stack name m.mode m.mtime .dir [] :: serKids form (stack ++ [name]) kids
 def serKids (form : Bool) (stack : List Str) : Kids → List Part
@@ -255,7 +276,7 @@ def metaFromQuery (fixed : Bool) (ps : List (Str × Str)) : Meta :=
     | some v => (parseOct32 v).getD 0
     | none => 0
   let nsecs : Int := match lookup ps kNsecs with
-    | some v => (parseDec64 v).getD 0
+    | some v => parseDecVal v   -- `nsecs, _ = strconv.ParseInt(...)`: the error is ignored
     | none => 0
   match lookup ps kMtime with
   | some v =>
@@ -270,6 +291,11 @@ def fileInfo (fixed : Bool) (p : Part) : Option Meta :=
   else match cutChar '?' p.formName with
     | none => some ⟨0, none⟩
     | some (_, after) => (parseQuery (after.length + 1) after).map (metaFromQuery fixed)
+
+/-- nextFile: `abspath-encoded` (unescaped) when non-empty, else the raw `abspath` header.
+(An undecodable `abspath-encoded` makes nextFile fail; that error path is not modelled.) -/
+def absPathOf (p : Part) : Str :=
+  if p.absEnc ≠ [] then (unescape p.absEnc).getD [] else p.absRaw
 
 def metaOf (fi : Option Meta) : Meta := fi.getD ⟨0, none⟩
 
@@ -312,7 +338,7 @@ def walk (fixed : Bool) : Nat → Str → Str → List Part → Kids × List Par
         (.cons name (.link (metaOf (fileInfo fixed p)).mtime p.body) more.1, more.2)
       | .file =>
         let more := walk fixed fuel dpath name ps
-        (.cons name (.file (metaOf (fileInfo fixed p)) p.body) more.1, more.2)
+        (.cons name (.file (metaOf (fileInfo fixed p)) (absPathOf p) p.body) more.1, more.2)
 
 def fuelFor (parts : List Part) : Nat :=
   parts.length + (parts.map (fun p => p.filename.length)).sum + 2
@@ -323,7 +349,7 @@ def parse (fixed : Bool) (parts : List Part) : Kids := (walk fixed (fuelFor part
 -- what mixed mode can transport: no modes, no times
 mutual
 def stripNode : Node → Node
-  | .file _ c => .file ⟨0, none⟩ c
+  | .file _ a c => .file ⟨0, none⟩ a c
   | .link _ t => .link none t
   | .dir _ kids => .dir ⟨0, none⟩ (stripKids kids)
 def stripKids : Kids → Kids
